@@ -83,6 +83,9 @@ func concWindow(args []string, out *bufio.Writer) {
 		r := &rng{s: scriptSeed(*seed, "concwindow", i)}
 		fmt.Fprintf(out, "script concwindow-%d-%d\n", *seed, i)
 		rec := &hookRecorder{}
+		var hexp *hookExpiry
+		var href *hookRefresh
+		var wclk *atomicClock
 		o := &otter.Options[int, int]{Logger: nopLogger{}, StatsRecorder: rec,
 			// a replaced value is reported before its successor is published: dwelling here widens that window a little
 			OnAtomicDeletion: func(e otter.DeletionEvent[int, int]) {
@@ -94,10 +97,15 @@ func concWindow(args []string, out *bufio.Writer) {
 		case 1:
 			o.MaximumSize = 1000
 		case 2:
-			o.ExpiryCalculator = otter.ExpiryWriting[int, int](time.Hour)
+			hexp = &hookExpiry{}
+			o.ExpiryCalculator = hexp
+			wclk = &atomicClock{}
+			wclk.now.Store(1 << 40)
+			o.Clock = wclk
 		case 3:
 			o.MaximumSize = 1000
-			o.RefreshCalculator = otter.RefreshWriting[int, int](time.Hour)
+			href = &hookRefresh{}
+			o.RefreshCalculator = href
 		}
 		c := otter.Must(o)
 		fmt.Fprintf(out, "cfg bounded=%v expiry=%v refresh=%v\n", o.MaximumSize != 0, o.ExpiryCalculator != nil, o.RefreshCalculator != nil)
@@ -105,7 +113,70 @@ func concWindow(args []string, out *bufio.Writer) {
 		for round := 0; round < rounds; round++ {
 			k := r.intn(4)
 			c.Invalidate(k)
-			switch r.intn(4) {
+			kind := r.intn(4)
+			if hexp != nil && r.chance(0.3) {
+				kind = 4
+			}
+			if href != nil && r.chance(0.3) {
+				kind = 5
+			}
+			switch kind {
+			case 4:
+				// ---- siaread: SetIfAbsent on a present key is a read made under the key's bucket lock; while its calculator is
+				// being asked (ExpireAfterRead), another goroutine overwrites the key.  The writer has to wait for the lock, so
+				// the read's deadline is in place when the update (which keeps the deadline) copies it: the entry ends up with
+				// read time + 50 s, not with the deadline it had before the read.
+				c.Set(k, 1)
+				wclk.now.Add(int64(10 * time.Second))
+				readAt := wclk.now.Load()
+				wdone := make(chan struct{})
+				hook := func() {
+					go func() {
+						c.Set(k, 2)
+						close(wdone)
+					}()
+					waitOr(wdone, 30*time.Millisecond)
+				}
+				hexp.onRead.Store(&hook)
+				got, inserted := c.SetIfAbsent(k, 99)
+				hexp.onRead.Store(nil)
+				finished := waitOr(wdone, 5*time.Second)
+				e, ok := c.GetEntryQuietly(k)
+				fmt.Fprintf(out, "siaread key=%d got=%d inserted=%v finished=%v present=%v value=%d expoffset=%d want=%d\n",
+					k, got, inserted, finished, ok, e.Value, e.ExpiresAtNano-readAt, int64(50*time.Second))
+				if !finished {
+					return
+				}
+			case 5:
+				// ---- refreshfail: an explicit Refresh fails; while the calculator is asked what to do about the failure
+				// (RefreshAfterReloadFailure, which answers "keep"), another goroutine sets the key's refresh time to one hour.
+				// That override must survive: "keep" means keep what is there now, not what was there when the question was asked
+				c.Set(k, 1)
+				odone := make(chan struct{})
+				hook := func() {
+					go func() {
+						c.SetRefreshableAfter(k, time.Hour)
+						close(odone)
+					}()
+					waitOr(odone, 2*time.Second)
+				}
+				href.onFailure.Store(&hook)
+				ld := &windowLoader{fail: true}
+				ch := c.Refresh(context.Background(), k, ld)
+				delivered := false
+				if ch != nil {
+					select {
+					case <-ch:
+						delivered = true
+					case <-time.After(5 * time.Second):
+					}
+				}
+				href.onFailure.Store(nil)
+				e, ok := c.GetEntryQuietly(k)
+				fmt.Fprintf(out, "refreshfail key=%d delivered=%v present=%v refreshmin=%d\n", k, delivered, ok, int64(e.RefreshableAfter()/time.Minute))
+				if !delivered {
+					return
+				}
 			case 3:
 				// ---- hotget: the key is present throughout (it is only ever overwritten); loader-backed Gets run against the
 				// overwrites: each returns one of the written values and the loader is never asked
@@ -282,4 +353,35 @@ func (b windowBulk) BulkLoad(ctx context.Context, keys []int) (map[int]int, erro
 
 func (b windowBulk) BulkReload(ctx context.Context, keys []int, _ []int) (map[int]int, error) {
 	return b.BulkLoad(ctx, keys)
+}
+
+// hookExpiry: 100 s after a creation, unchanged by an update, 50 s after a read; a read can be made to call a hook first
+type hookExpiry struct {
+	onRead atomic.Pointer[func()]
+}
+
+func (h *hookExpiry) ExpireAfterCreate(otter.Entry[int, int]) time.Duration { return 100 * time.Second }
+func (h *hookExpiry) ExpireAfterUpdate(e otter.Entry[int, int], _ int) time.Duration {
+	return e.ExpiresAfter()
+}
+func (h *hookExpiry) ExpireAfterRead(e otter.Entry[int, int]) time.Duration {
+	if f := h.onRead.Swap(nil); f != nil {
+		(*f)()
+	}
+	return 50 * time.Second
+}
+
+// hookRefresh: refreshable one minute after a write or reload, unchanged by a failed reload (asked through a hook)
+type hookRefresh struct {
+	onFailure atomic.Pointer[func()]
+}
+
+func (h *hookRefresh) RefreshAfterCreate(otter.Entry[int, int]) time.Duration      { return time.Minute }
+func (h *hookRefresh) RefreshAfterUpdate(otter.Entry[int, int], int) time.Duration { return time.Minute }
+func (h *hookRefresh) RefreshAfterReload(otter.Entry[int, int], int) time.Duration { return time.Minute }
+func (h *hookRefresh) RefreshAfterReloadFailure(e otter.Entry[int, int], _ error) time.Duration {
+	if f := h.onFailure.Swap(nil); f != nil {
+		(*f)()
+	}
+	return e.RefreshableAfter()
 }
